@@ -495,9 +495,19 @@ def case_weight(case):
     return sum(pl_len(x) for op in case["ops"] for x in op[1:] if isinstance(x, dict))
 
 
-def e2e_plan(case, quick, rng):
+def e2e_plan(case, quick, rng, fw="tx"):
     if case.get("expect") is None:
         return None
+    plan = e2e_plan_base(case, quick, rng)
+    if fw.startswith("aio"):
+        # asyncio adapter: reads queue up in receive_queue until the consumer task runs; every re-segmentation is also
+        # delivered as a burst (all data_received calls before the loop turns), plus bursts of whole frames
+        extra = ["burst+" + m for m in plan["modes"] if not m.startswith("hs+") and m != "whole"]
+        plan["modes"] = plan["modes"] + extra + ["burst+frames", "burst+frames"]
+    return plan
+
+
+def e2e_plan_base(case, quick, rng):
     w = case_weight(case)
     if w <= (24 if quick else 60):
         modes = ["all_splits", "drip", "whole", "hs+whole", "hs+cuts"]
@@ -548,7 +558,7 @@ def gen_cases(ck, fw, role, nvx=False):
     erng = ck.rng(f"e2e/{fw}/{role}/{nvx}")
     for c in cases:
         if "e2e" not in c:
-            c["e2e"] = e2e_plan(c, quick, erng)
+            c["e2e"] = e2e_plan(c, quick, erng, fw)
     return cases
 
 
@@ -743,7 +753,9 @@ def run(ck):
                 n_e2e += res["e2e"]["runs"]
                 if not res["e2e"]["ok"]:
                     f0 = res["e2e"]["fails"][0]
-                    ck.violation(f"e2e/{role}->peer/{shape(case)}/{f0['mode']}",
+                    ck.bump("e2e-failure:" + f0["mode"])
+                    peer = "server" if role == "client" else "client"
+                    ck.violation(f"e2e/{fw}/{peer}-receives/{f0['mode']}",
                                  f"real peer did not deliver exactly the sent messages ({fw}, sender {role}): state "
                                  f"{f0['state']}, got {f0['got']}, want {f0['want']}, bad {f0['bad']}",
                                  {"fw": fw, "case": case, "fail": f0}, found_input=True)
